@@ -138,6 +138,10 @@ pub struct Obs {
     pub sj: JFile<SState>,
     pub pj: JFile<PatchesState>,
     pub pd: Option<(Vec<(usize, Art)>, Vec<String>)>, // arts sorted by number, junk sorted
+    /// lock / network actions of the calling thread (A R T U N)
+    pub la: String,
+    /// number of network callbacks made by background threads of this call
+    pub lb: usize,
 }
 
 pub fn render_obs(o: &Obs) -> String {
@@ -179,12 +183,14 @@ pub fn render_obs(o: &Obs) -> String {
         ),
     };
     format!(
-        "ret={} net={} {} {} {}",
+        "ret={} net={} {} {} {} la={} lb={}",
         o.ret,
         join_with(",", &o.net.iter().map(render_net).collect::<Vec<_>>()),
         sj,
         pj,
-        pd
+        pd,
+        if o.la.is_empty() { "~" } else { &o.la },
+        o.lb
     )
 }
 
